@@ -249,12 +249,25 @@ def rule_G1(ctx):
                 r.ok(f"{c}.{x}<->{y}")
     # selection and installation
     ln, mn = m.switch_names['lsb0'], m.switch_names['msb0']
+    from . import guards as G
     sel = [n for n in own_walk(f.node) if isinstance(n, ast.IfExp) and {ast.unparse(n.body), ast.unparse(n.orelse)} == {ln, mn}]
-    if len(sel) != 1:
-        raise AnalysisError('Options.set_lsb0: table selection expression not recognised (needs a human)')
-    test, when_true = sel[0].test, ast.unparse(sel[0].body)
-    if isinstance(test, ast.UnaryOp) and isinstance(test.op, ast.Not):
-        test, when_true = test.operand, ast.unparse(sel[0].orelse)
+    if len(sel) == 1:
+        test, a, b = G.pos_if(sel[0])
+        when_true = ast.unparse(a)
+        selnode = sel[0]
+    else:
+        # statement form: if <option>: methods = <lsb0 table> else: methods = <msb0 table>
+        selnode = test = when_true = None
+        for n in own_walk(f.node):
+            if isinstance(n, ast.If):
+                pt, pb, pe = G.pos_if(n)
+                va = [s0.value for s0 in pb if isinstance(s0, ast.Assign) and isinstance(s0.value, ast.Name) and s0.value.id in (ln, mn)]
+                vb = [s0.value for s0 in pe if isinstance(s0, ast.Assign) and isinstance(s0.value, ast.Name) and s0.value.id in (ln, mn)]
+                if len(va) == 1 and len(vb) == 1 and {va[0].id, vb[0].id} == {ln, mn}:
+                    selnode, test, when_true = n, pt, va[0].id
+        if selnode is None:
+            raise AnalysisError('Options.set_lsb0: table selection expression not recognised (needs a human)')
+    sel = [selnode]
     if when_true != ln or '_lsb0' not in ast.unparse(test) or 'not ' in ast.unparse(test):
         r.fail(f.key, sel[0], 'the lsb0 table must be selected exactly when the option is true', loc=f.loc(sel[0]))
     else:
